@@ -819,7 +819,9 @@ func runC20(r *Rec) {
 		nEp = 2500
 	}
 	for i := 0; i < nEp; i++ {
-		if i%3 == 2 {
+		if i%8 == 5 {
+			c20VerifierEpisode(r, i)
+		} else if i%3 == 2 {
 			c20LpEpisode(r, i)
 		} else {
 			c20BondEpisode(r, i)
